@@ -2468,6 +2468,9 @@ func (h *ResponseHeader) TrailerHeader() []byte {
 	for _, t := range h.trailer {
 		value := h.peek(t)
 		h.bufV = appendHeaderLine(h.bufV, t, value)
+		// All values of the field are excluded from the header block,
+		// so the further ones have to be sent here as well.
+		h.bufV = appendFurtherValues(h.bufV, h.h, t)
 	}
 	h.bufV = append(h.bufV, strCRLF...)
 	return h.bufV
@@ -2476,6 +2479,22 @@ func (h *ResponseHeader) TrailerHeader() []byte {
 // String returns response header representation.
 func (h *ResponseHeader) String() string {
 	return string(h.Header())
+}
+
+// appendFurtherValues appends a header line for every value of key in h but the first one.
+func appendFurtherValues(dst []byte, h []argsKV, key []byte) []byte {
+	first := true
+	for i := range h {
+		if !bytes.Equal(h[i].key, key) {
+			continue
+		}
+		if first {
+			first = false
+			continue
+		}
+		dst = appendHeaderLine(dst, key, h[i].value)
+	}
+	return dst
 }
 
 // appendStatusLine appends the response status line to dst and returns
@@ -2600,6 +2619,9 @@ func (h *RequestHeader) TrailerHeader() []byte {
 	for _, t := range h.trailer {
 		value := h.peek(t)
 		h.bufV = appendHeaderLine(h.bufV, t, value)
+		// All values of the field are excluded from the header block,
+		// so the further ones have to be sent here as well.
+		h.bufV = appendFurtherValues(h.bufV, h.h, t)
 	}
 	h.bufV = append(h.bufV, strCRLF...)
 	return h.bufV
